@@ -18,6 +18,7 @@
 -/
 import DropletsVerif.Lemmas.RealInst
 import DropletsVerif.Generated.Perturbed
+import DropletsVerif.Lemmas.Fourier
 import Mathlib.Tactic
 
 namespace DV.C13
@@ -254,5 +255,105 @@ theorem k_roundtrip (l : ℕ) (m : ℤ) (h1 : -(l : ℤ) ≤ m) (h2 : m ≤ l) :
 
 /-- the number of modes up to degree `l` is a perfect square, `(l+1)²` -/
 theorem count_is_square (l : ℕ) : 1 + 2 * l + l * l = (l + 1) * (l + 1) := by ring
+
+end DV.C13
+
+/-! ### 2-D: the reported quantities ARE the geometry of the outline (Lemmas/Fourier.lean) -/
+
+namespace DV.C13
+open DV DV.Gen DV.Fourier Real
+
+theorem esum_term2_eq_tp (φ : ℝ) (ps : List (ℝ × ℝ)) (s : ℕ) : esum (term2 φ) ps s = tp ps s φ := by
+  induction ps generalizing s with
+  | nil => rfl
+  | cons p ps ih => simp only [esum, tp, term2, ih]
+
+theorem esum_w_eq_tpw (w : ℕ → ℝ) (φ : ℝ) (ps : List (ℝ × ℝ)) (s : ℕ) :
+    esum (fun n ab => w n * term2 φ n ab) ps s = tpw w ps s φ := by
+  induction ps generalizing s with
+  | nil => rfl
+  | cons p ps ih =>
+    have := ih (s + 1)
+    simp only [esum, tpw, this]
+    simp only [term2]
+
+theorem sqsum_pairs : ∀ amps : List ℝ, sqsum (pairs 0 amps) = (amps.map (· ^ 2)).sum
+  | [] => by simp [pairs, sqsum]
+  | [a] => by simp [pairs, sqsum]
+  | a :: b :: rest => by
+    have ih := sqsum_pairs rest
+    simp only [pairs, sqsum, List.map_cons, List.sum_cons] at ih ⊢
+    rw [ih]; ring
+
+theorem pairs_scale (c : ℝ) : ∀ amps : List ℝ,
+    pairs 0 (amps.map (c * ·)) = (pairs 0 amps).map fun p => (c * p.1, c * p.2)
+  | [] => by simp [pairs]
+  | [a] => by simp [pairs]
+  | a :: b :: rest => by
+    have ih := pairs_scale c rest
+    simp only [pairs, List.map_cons, ih]
+
+/-- **The reported 2-D volume is the area enclosed by the interface-distance function**:
+`π R² (1 + Σ a²/2) = ∫₀^{2π} ½ r(φ)² dφ` with `r = interface_distance`, for every mode count and all amplitudes. -/
+theorem p2d_volume_is_area (R : ℝ) (amps : List ℝ) :
+    p2d_volume R amps = ∫ φ in (0:ℝ)..(2 * π), (p2d_distance R amps φ) ^ 2 / 2 := by
+  rw [p2d_volume_eq_spec]
+  simp_rw [p2d_distance_eq_spec, esum_term2_eq_tp]
+  rw [polar_area, sqsum_pairs]
+
+/-- scaling all amplitudes by ε scales the perturbation -/
+theorem p2d_distance_scaled (R ε φ : ℝ) (amps : List ℝ) :
+    p2d_distance R (amps.map (ε * ·)) φ = R * (1 + ε * tp (pairs 0 amps) 1 φ) := by
+  rw [p2d_distance_eq_spec, esum_term2_eq_tp, pairs_scale, tp_smul]
+
+theorem p2d_curvature_scaled (R ε φ : ℝ) (amps : List ℝ) :
+    p2d_curvature R (amps.map (ε * ·)) φ =
+      1 / (R * (1 + ε * (tp (pairs 0 amps) 1 φ + tp (dmap 1 (dmap 1 (pairs 0 amps))) 1 φ))) := by
+  rw [p2d_curvature_eq_spec, esum_w_eq_tpw, pairs_scale, tpw_smul, tp_add_dd]
+  congr 2
+  ring
+
+/-- **The reported 2-D curvature agrees with the true curvature of the outline to first order in the
+amplitudes**, for any radius, any number of modes and any direction.  With all amplitudes scaled by `ε`,
+`r_ε = interface_distance` is the radius function of the outline `t ↦ centre + r_ε(t)(cos t, sin t)`
+(`interface_position`), `r1`, `r2` are its first and second derivatives (proved), the true signed
+curvature of that plane curve is `polarCurv r r' r''` (`polar_param_curv`), and
+
+  * at `ε = 0` both the true and the reported curvature equal `1/R`;
+  * their derivatives with respect to `ε` at `ε = 0` coincide. -/
+theorem p2d_curvature_first_order (R φ : ℝ) (hR : 0 < R) (amps : List ℝ) :
+    let r : ℝ → ℝ → ℝ := fun ε t => p2d_distance R (amps.map (ε * ·)) t
+    let r1 : ℝ → ℝ → ℝ := fun ε t => R * (ε * tp (dmap 1 (pairs 0 amps)) 1 t)
+    let r2 : ℝ → ℝ → ℝ := fun ε t => R * (ε * tp (dmap 1 (dmap 1 (pairs 0 amps))) 1 t)
+    (∀ ε t, HasDerivAt (r ε) (r1 ε t) t) ∧ (∀ ε t, HasDerivAt (r1 ε) (r2 ε t) t) ∧
+    polarCurv (r 0 φ) (r1 0 φ) (r2 0 φ) = 1 / R ∧ p2d_curvature R (amps.map ((0:ℝ) * ·)) φ = 1 / R ∧
+    ∃ d, HasDerivAt (fun ε => polarCurv (r ε φ) (r1 ε φ) (r2 ε φ)) d 0 ∧
+         HasDerivAt (fun ε => p2d_curvature R (amps.map (ε * ·)) φ) d 0 := by
+  intro r r1 r2
+  set ps := pairs 0 amps with hps
+  have hr : ∀ ε t, r ε t = R * (1 + ε * tp ps 1 t) := fun ε t => p2d_distance_scaled R ε t amps
+  refine ⟨?_, ?_, ?_, ?_, ?_⟩
+  · intro ε t
+    have h := ((tp_hasDerivAt ps 1 t).const_mul ε).const_add 1 |>.const_mul R
+    have e : r ε = fun t => R * (1 + ε * tp ps 1 t) := funext (hr ε)
+    rw [e]; exact h
+  · intro ε t
+    exact ((tp_hasDerivAt (dmap 1 ps) 1 t).const_mul ε).const_mul R
+  · simp only [hr, r1, r2, polarCurv]
+    simp only [zero_mul, add_zero, mul_one, mul_zero]
+    rw [show R ^ 2 + 2 * 0 ^ 2 - 0 = R ^ 2 by ring, show R ^ 2 + (0:ℝ) ^ 2 = R ^ 2 by ring, Real.sqrt_sq hR.le]
+    field_simp
+  · rw [p2d_curvature_scaled]; simp
+  · refine ⟨-(tp ps 1 φ + tp (dmap 1 (dmap 1 ps)) 1 φ) / R, ?_, ?_⟩
+    · have := polarCurv_first_order R (tp ps 1 φ) (tp (dmap 1 ps) 1 φ) (tp (dmap 1 (dmap 1 ps)) 1 φ) hR
+      have e : (fun ε => polarCurv (r ε φ) (r1 ε φ) (r2 ε φ)) = fun ε =>
+          polarCurv (R * (1 + ε * tp ps 1 φ)) (R * (ε * tp (dmap 1 ps) 1 φ)) (R * (ε * tp (dmap 1 (dmap 1 ps)) 1 φ)) := by
+        funext ε; simp only [hr, r1, r2, hps]
+      rw [e]; exact this
+    · have := codeCurv_first_order R (tp ps 1 φ) (tp (dmap 1 (dmap 1 ps)) 1 φ) hR
+      have e : (fun ε => p2d_curvature R (amps.map (ε * ·)) φ) = fun ε =>
+          1 / (R * (1 + ε * (tp ps 1 φ + tp (dmap 1 (dmap 1 ps)) 1 φ))) := by
+        funext ε; exact p2d_curvature_scaled R ε φ amps
+      rw [e]; exact this
 
 end DV.C13
